@@ -187,6 +187,8 @@ class Interp(StmtMixin):
             return z3.Length(v.t) > 0
         if v.ty == "pylist":
             return z3.BoolVal(len(v.py) > 0)
+        if v.ty == "tree_children":
+            return Tree.is_Op(v.t)
         if v.ty == "slist":
             return z3.Not(SList.is_Nil(v.t))
         raise Unsupported(f"truthiness of {v.ty}")
